@@ -15,7 +15,7 @@ import numpy as np
 
 from harness import classify, graphs as G, progcheck as PC, programs as P
 
-KNOWN = ("swv-layout-drift", "take-through-broadcast", "minmax-zero-size")
+KNOWN = ("swv-layout-drift", "take-through-broadcast", "minmax-zero-size", "swv-nested-wrong-values", "broadcast-axis-zero-width-chunk")
 OPS = P.DEFAULT_OPS + ("swv_reduce", "swv_reduce", "rechunk", "getitem", "getitem", "concatenate", "reduce")
 
 
@@ -112,6 +112,8 @@ def run(ctx, replay=None):
         corr.append(prog)
     block_correspondence(ctx, corr)
     dtype_stream(ctx)
+    from harness.props_ext import c03_expr2  # phase 3: second-layer model (Props/C03Ext.lean; ex2.block)
+    c03_expr2.run_ext(ctx, corr)
 
 
 def dtype_stream(ctx):
